@@ -297,39 +297,76 @@ func (m *lmetric) toFlatRaw() []byte {
 
 var influxSuffix = map[int32]string{1: "last", 2: "sum", 5: "first"}
 
-func influxEscape(s string, eq bool) string {
-	s = strings.ReplaceAll(s, ",", `\,`)
-	s = strings.ReplaceAll(s, " ", `\ `)
-	if eq {
-		s = strings.ReplaceAll(s, "=", `\=`)
+// Line-protocol escaping, derived from the unchanged parser (ingestion/influx/parser.go):
+//   - the scanner (walkToUnescapedChar) treats a delimiter as escaped iff the run of backslashes
+//     directly before it is ODD; measurement delimiters are ',' and ' ', tag key/value and field key
+//     delimiters are ',' ' ' '=';
+//   - unescape (unescapeMetricName / unescapeTag) only turns `\<delimiter>` into `<delimiter>`;
+//     every other backslash (also `\\`) is kept literally.
+//
+// So the text of a string is the string with one backslash put before each delimiter character, and
+// a string is REPRESENTABLE iff every backslash run that directly precedes a delimiter character of
+// the string, and the run at the end of the string (a structural delimiter follows), is EVEN:
+// then each delimiter of the string ends up behind an odd run (escaped) and the structural one
+// behind an even run (a real delimiter).
+func influxEscape(s string, delims string) string {
+	var sb strings.Builder
+	for i := 0; i < len(s); i++ {
+		if strings.IndexByte(delims, s[i]) >= 0 {
+			sb.WriteByte('\\')
+		}
+		sb.WriteByte(s[i])
 	}
-	return s
+	return sb.String()
 }
+
+func influxRepresentable(s string, delims string) bool {
+	if s == "" || strings.ContainsAny(s, "\n\r") {
+		return false
+	}
+	run := 0
+	for i := 0; i < len(s); i++ {
+		switch {
+		case s[i] == '\\':
+			run++
+		case strings.IndexByte(delims, s[i]) >= 0:
+			if run%2 == 1 {
+				return false
+			}
+			run = 0
+		default:
+			run = 0
+		}
+	}
+	return run%2 == 0
+}
+
+const (
+	influxNameDelims = ", "
+	influxTagDelims  = ", ="
+)
 
 // toInflux renders the metric as one influx line (precision ms) when the line protocol can say
 // it: no histogram, at least one field, field types Last/Sum/First named with the matching suffix,
-// integer values, no backslash / newline / quote / leading '#', non-empty strings.
+// integer values, representable strings (see above), measurement not starting with '#'.
 func (m *lmetric) toInflux() (string, bool) {
 	if m.isNil || m.cf != nil || len(m.fields) == 0 || m.name == "" || m.ts < 0 {
 		return "", false
 	}
-	bad := func(s string) bool {
-		return s == "" || strings.ContainsAny(s, "\\\n\r\"") || strings.HasPrefix(s, "#") || strings.HasSuffix(s, " ") || strings.HasPrefix(s, " ")
-	}
-	if bad(m.name) {
+	if !influxRepresentable(m.name, influxNameDelims) || strings.HasPrefix(m.name, "#") {
 		return "", false
 	}
 	var sb strings.Builder
-	sb.WriteString(influxEscape(m.name, false))
+	sb.WriteString(influxEscape(m.name, influxNameDelims))
 	for _, t := range m.tags {
-		if t == nil || bad(t.k) || bad(t.v) {
+		if t == nil || !influxRepresentable(t.k, influxTagDelims) || !influxRepresentable(t.v, influxTagDelims) {
 			return "", false
 		}
-		sb.WriteString("," + influxEscape(t.k, true) + "=" + influxEscape(t.v, true))
+		sb.WriteString("," + influxEscape(t.k, influxTagDelims) + "=" + influxEscape(t.v, influxTagDelims))
 	}
 	sb.WriteString(" ")
 	for i, f := range m.fields {
-		if f == nil || bad(f.name) || f.val.kind != 0 {
+		if f == nil || !influxRepresentable(f.name, influxTagDelims) || f.val.kind != 0 {
 			return "", false
 		}
 		suf, ok := influxSuffix[f.typ]
@@ -339,12 +376,51 @@ func (m *lmetric) toInflux() (string, bool) {
 		if i > 0 {
 			sb.WriteString(",")
 		}
-		sb.WriteString(influxEscape(f.name, true) + "=" + strconv.FormatInt(f.val.n, 10))
+		sb.WriteString(influxEscape(f.name, influxTagDelims) + "=" + strconv.FormatInt(f.val.n, 10))
 	}
 	if m.ts != 0 {
 		sb.WriteString(" " + strconv.FormatInt(m.ts, 10))
 	}
 	return sb.String(), true
+}
+
+// genEscStr: a short string made of letters, unicode, quotes, delimiter characters and backslash
+// runs of length 1..4 (before delimiters, before ordinary characters, at the end); with fix it is
+// made representable by lengthening every odd run that matters by one backslash.
+func genEscStr(r *rand.Rand, delims string, fix bool) string {
+	chunks := []string{"a", "b", "C:", "x1", "é", "键", "\"", ",", " ", "=", ",", " ", "="}
+	var sb strings.Builder
+	sb.WriteString(chunks[r.Intn(6)])
+	for n := 1 + r.Intn(4); n > 0; n-- {
+		if r.Intn(2) == 0 {
+			sb.WriteString(strings.Repeat("\\", 1+r.Intn(4)))
+		}
+		sb.WriteString(chunks[r.Intn(len(chunks))])
+	}
+	if r.Intn(3) == 0 {
+		sb.WriteString(strings.Repeat("\\", 1+r.Intn(4)))
+	}
+	s := sb.String()
+	if !fix {
+		return s
+	}
+	var out strings.Builder
+	run := 0
+	for i := 0; i < len(s); i++ {
+		if s[i] == '\\' {
+			run++
+		} else {
+			if strings.IndexByte(delims, s[i]) >= 0 && run%2 == 1 {
+				out.WriteByte('\\')
+			}
+			run = 0
+		}
+		out.WriteByte(s[i])
+	}
+	if run%2 == 1 {
+		out.WriteByte('\\')
+	}
+	return out.String()
 }
 
 // ---------------------------------------------------------------- generators
@@ -463,6 +539,22 @@ func genMetric(r *rand.Rand, bad int, ts int64) *lmetric {
 		}
 	}
 	r.Shuffle(len(m.tags), func(i, j int) { m.tags[i], m.tags[j] = m.tags[j], m.tags[i] })
+	// escape-heavy variant: names, keys and values with delimiter characters and backslash runs
+	escHeavy := r.Intn(4) == 0
+	if escHeavy {
+		fix := r.Intn(8) != 0
+		if r.Intn(2) == 0 {
+			m.name = genEscStr(r, influxNameDelims, fix)
+		}
+		for _, t := range m.tags {
+			if r.Intn(2) == 0 {
+				t.k = genEscStr(r, influxTagDelims, fix)
+			}
+			if r.Intn(2) == 0 {
+				t.v = genEscStr(r, influxTagDelims, fix)
+			}
+		}
+	}
 	if hit() && len(m.tags) > 0 {
 		m.tags[r.Intn(len(m.tags))] = nil
 	}
@@ -476,12 +568,15 @@ func genMetric(r *rand.Rand, bad int, ts int64) *lmetric {
 	if r.Intn(8) == 0 {
 		nf = 0
 	}
-	influxish := r.Intn(3) == 0
+	influxish := r.Intn(3) == 0 || escHeavy && r.Intn(4) != 0
 	for i := 0; i < nf; i++ {
 		f := &lfield{name: pick(r, fieldPool), typ: int32(1 + r.Intn(5)), val: num(int64(r.Intn(2001) - 200))}
 		if influxish {
 			f.typ = []int32{1, 2, 5}[r.Intn(3)]
 			f.name = genStr(r, 1+r.Intn(4)) + "_" + influxSuffix[f.typ]
+			if escHeavy && r.Intn(2) == 0 {
+				f.name = genEscStr(r, influxTagDelims, true) + "_" + influxSuffix[f.typ]
+			}
 		}
 		if hit() {
 			f.typ = 0
